@@ -144,6 +144,10 @@ impl Exec {
                 self.resolve_pending()?;
                 self.op_half_open(*id, *host, *to)?;
             }
+            Op::CloseOne { sock } => {
+                self.resolve_pending()?;
+                self.op_close_one(*sock)?;
+            }
             Op::Close { sock, server_first } => {
                 let closed = self.model.socks.get(sock).cloned();
                 self.op_close(*sock, *server_first)?;
@@ -592,6 +596,40 @@ impl Exec {
         Ok(())
     }
 
+    /// Drop one end of an established connection and let the close run;
+    /// "closing a socket frees its binding": the model forgets that end.
+    fn op_close_one(&mut self, sock: u32) -> Res {
+        let Some(m) = self.model.socks.get(&sock).cloned() else {
+            return Ok(());
+        };
+        let Role::Stream { peer, .. } = m.role else {
+            return Ok(());
+        };
+        self.real.remove(&sock);
+        self.world.clean_rounds(Q);
+        self.model.socks.remove(&sock);
+        self.out.count("close_one_end", 1);
+        // diagnosis: exactly this end is still in the table, as an orphan
+        // waiting in FIN_WAIT2 for a FIN its (open) peer never sends
+        let want = self.model.counts(m.host);
+        let c = turmoil_net::verif::host_counts_by_id(self.world.id(m.host));
+        let orphan = turmoil_net::netstat(self.model.hosts[m.host][0])
+            .entries
+            .iter()
+            .any(|e| e.proto == turmoil_net::Proto::Tcp && e.local == m.sa() && e.peer == Some(peer) && e.state == Some(turmoil_net::NetstatState::FinWait2));
+        if orphan && c.sockets == want.0 + 1 && c.binding_fds == want.2 + 1 && c.connections == want.3 + 1 {
+            return Err(Complaint {
+                class: "diag:orphan-finwait2-keeps-binding-while-peer-open".into(),
+                detail: format!(
+                    "{} (host {}) was dropped {Q} fault-free rounds ago while its peer {peer} keeps the connection open: the socket is still in the table in FIN_WAIT2 with its binding and 4-tuple (no orphan timeout), model expects it gone",
+                    m.sa(),
+                    m.host
+                ),
+            });
+        }
+        Ok(())
+    }
+
     fn op_close(&mut self, sock: u32, server_first: bool) -> Res {
         let Some(m) = self.model.socks.get(&sock).cloned() else {
             return Ok(());
@@ -657,9 +695,17 @@ impl Exec {
         let Role::Udp { peer } = &self.model.socks[&l].role else {
             return UdpExpect::Nobody;
         };
+        // A loopback source address is host-local: on another host it names
+        // that host's own loopback, not the sender. A socket connected to
+        // "its" 127.0.0.1:p must never take such a datagram for its peer's;
+        // for an unconnected receiver the text leaves delivery open.
+        let martian = sender.addr.is_loopback() && d != sender.host;
         let Some(peer) = peer else {
-            return UdpExpect::Recv(l);
+            return if martian { UdpExpect::Either(l) } else { UdpExpect::Recv(l) };
         };
+        if martian {
+            return UdpExpect::Nobody;
+        }
         if peer.port() != sender.port {
             return UdpExpect::Nobody;
         }
